@@ -63,7 +63,11 @@ theorem lint_mem (es : List (Entry α)) (w : Warning α) (h : w ∈ lint es) :
 
 /-- C07.3 / C07.4 — every warning of a successful solve names, by its position in the caller's
 list, a request of the attempted subset: lint warnings a `LinesAtAngle(Other)` request, degeneracy
-notices a request whose evaluation raised the flag at a visited assignment. -/
+notices a request of a kind that can raise the flag (`DegenerateFrom`: at *some* assignment of the
+right length — this weak form does not say the assignment was visited by the run).  The statement
+with "raised at a configuration this run visited", for Ok and for Failure outcomes, is
+`warning_indices_visited` / `failure_warning_indices` in `Ezpz/Properties/C07b.lean`
+(`DegenerateAtVisited`, `Ezpz/Proofs/Visited.lean`). -/
 theorem warning_indices (reqs : List (Constraint α × Nat)) (g : List (Nat × α))
     (cfg : Config α) (solve : LinSolve α) (svd : Option (Svd α)) (o : Outcome α)
     (hne : reqs ≠ []) (h : solveWithPriority reqs g cfg solve svd = .ok o) :
@@ -103,8 +107,10 @@ theorem failure_sizes (es : List (Entry α)) (g : List (Nat × α)) (cfg : Confi
     | (injection h with h; subst h; exact ⟨rfl, rfl⟩)
     | simp at h
 
-/-- C07.6 at the public entry point: the sizes are those of the highest-priority subset (the only
-level whose failure is ever returned). -/
+/-- C07.6 at the public entry point, weak form: the equation count is that of the subset of *some*
+priority bound `p`.  The full statement — `p` is the head of `levels (enumerate reqs)`, i.e. the
+numerically smallest requested priority, the only level whose failure is ever returned — is
+`failure_sizes_solve'` in `Ezpz/Properties/C07b.lean`. -/
 theorem failure_sizes_solve (reqs : List (Constraint α × Nat)) (g : List (Nat × α))
     (cfg : Config α) (solve : LinSolve α) (svd : Option (Svd α)) (f : Failure α)
     (h : solveWithPriority reqs g cfg solve svd = .error f) :
